@@ -171,6 +171,10 @@ EvalField(C, node, f, path) ==
                      THEN Res(NullV, <<ErrRec(p, "resolver", v.v)>>, <<call>>)      \* C06
                      ELSE IF v.k = "errs"                                           \* a group of n errors: one entry each
                      THEN Res(NullV, [i \in 1..v.v |-> ErrRec(p, "resolver", "group")], <<call>>)
+                     \* a resolver that returns a value TOGETHER WITH an error has failed: the position is null (C06).
+                     \* Deviation ValueWithError: ggql keeps (and completes) the value next to the error entry.
+                     ELSE IF v.k = "errval"
+                     THEN Res(IF "ValueWithError" \in C.dv THEN StrV(v.v) ELSE NullV, <<ErrRec(p, "resolver", "errval")>>, <<call>>)
                      ELSE LET r == Complete(C, fd.type, v, f.sels, p, <<node, f.name>>)
                           IN Res(r.val, r.errs, <<call>> \o r.calls)
 
